@@ -59,7 +59,11 @@ fn bad_list(r: &mut Rng, v: u64) -> (Vec<serde_json::Value>, &'static str) {
         l.insert(at, serde_json::json!({"target": "pad"}));
     }
     let pos = r.below(l.len() + 1);
-    let (bad, kind) = match r.below(5) {
+    let (bad, kind) = match r.below(8) {
+        // the offending rule may as well be a deny rule: it is validated like every other rule
+        5 => (serde_json::json!({"filter": "request.listener == ", "target": "deny"}), "syntax error in a deny rule"),
+        6 => (serde_json::json!({"filter": "request.target.port + 1", "target": "deny"}), "type error (not boolean) in a deny rule"),
+        7 => (serde_json::json!({"filter": "request.nosuch == 1", "target": "deny"}), "type error (unknown field) in a deny rule"),
         0 => (serde_json::json!({"filter": "request.listener == ", "target": "a0"}), "syntax error"),
         1 => (serde_json::json!({"filter": "request.target.port + 1", "target": "a0"}), "type error (not boolean)"),
         2 => (serde_json::json!({"filter": "request.nosuch == 1", "target": "a0"}), "type error (unknown field)"),
